@@ -19,4 +19,14 @@ def skewPast : Int := skewPastSec
 def blacklistSec : Int := blacklistDurationSec
 def cacheCap : Nat := defaultMaxSize
 
+/-- limiter as constructed in `New`: refill rate (tokens per second) and burst (tokens) for a configured `rateLimit = R`.
+    Unrecognised constructor arguments fall back to the pre-fix shape (1 token/s) so that the correspondence shows it. -/
+def limiterRate (R : Int) : Int := if limiterRateIsConfigPerSecond then R else 1
+def limiterBurst (R : Int) : Int := if limiterBurstIsConfig then R else 1
+
+/-! Behavioural parameters of the models that are *not* regenerated (they are tied to the code by the
+correspondence runs only): -/
+/-- `RevokeToken` lists the token until max(now + 24 h, exp + skew) -/
+def revokeUntilExp : Bool := true
+
 end Oidc.Current
